@@ -1,13 +1,20 @@
 package main
 
+import (
+	"fmt"
+	"strings"
+)
+
 // A fixed catalogue of helper shapes with their meaning under Go's semantics written out by hand (the inlined twin): present in
 // every run, whatever the seed. Most are rejected by the converter today; each must stay rejected or load with the twin's meaning.
 
 type fixedTwin struct {
-	name    string
-	helper  string // body of the rule group, with helpers
-	inlined string // the same group without helpers (what Go's scoping and evaluation rules make of it)
-	pkg     string // package-level declarations
+	name     string
+	helper   string      // body of the rule group, with helpers
+	inlined  string      // the same group without helpers (what Go's scoping and evaluation rules make of it)
+	pkg      string      // package-level declarations
+	rejected bool        // Go's reading of the group (inlined) is not a loadable rule: the group with helpers must be rejected too
+	more     [][2]string // further rule groups g1, g2, ... of the same file: {with helpers / named constants, written out}
 }
 
 func twinRule(where string) string {
@@ -92,6 +99,84 @@ var fixedTwins = func() []fixedTwin {
 	add("arguments in the opposite order of equal-typed parameters", "",
 		"\tf := func(v, w dsl.Var) bool { return v.Const && w.Type.Is(`int64`) }\n"+twinRule("f("+y+", "+x+")"),
 		twinRule("("+y+".Const && "+x+".Type.Is(`int64`))"))
+	// higher-order helpers: a parameter of function type is called in the body; the argument is another helper of the group.
+	// In Go the parameter hides whatever else has its name.
+	i64 := "\tp := func(v dsl.Var) bool { return v.Type.Is(`int64`) }\n"
+	i32 := "\tq := func(v dsl.Var) bool { return v.Type.Is(`int32`) }\n"
+	for _, hf := range []struct{ name, defs, where, inl string }{
+		{"parameter with a name of its own", i64 + "\tck := func(pred func(dsl.Var) bool, v dsl.Var) bool { return pred(v) }\n", "ck(p, " + x + ")", "((" + x + ".Type.Is(`int64`)))"},
+		{"parameter named like another helper, which is not the argument", i64 + i32 + "\tck := func(p func(dsl.Var) bool, v dsl.Var) bool { return p(v) }\n",
+			"ck(q, " + x + ") || p(" + y + ")", "((" + x + ".Type.Is(`int32`))) || (" + y + ".Type.Is(`int64`))"},
+		{"parameter named like a helper that is defined later", i32 + "\tck := func(p func(dsl.Var) bool, v dsl.Var) bool { return p(v) }\n" + i64,
+			"ck(q, " + x + ") || p(" + y + ")", "((" + x + ".Type.Is(`int32`))) || (" + y + ".Type.Is(`int64`))"},
+		{"parameter named like the higher-order helper itself", i64 + "\tck := func(ck func(dsl.Var) bool, v dsl.Var) bool { return ck(v) }\n", "ck(p, " + x + ")", "((" + x + ".Type.Is(`int64`)))"},
+		{"two function parameters named like the two helpers, passed crosswise", i64 + i32 + "\tck := func(p, q func(dsl.Var) bool, v dsl.Var) bool { return p(v) && !q(v) }\n",
+			"ck(q, p, " + x + ")", "((" + x + ".Type.Is(`int32`)) && !(" + x + ".Type.Is(`int64`)))"},
+		{"function parameter called under a negation, next to another atom", i64 + i32 + "\tck := func(v dsl.Var, p func(dsl.Var) bool) bool { return !p(v) || v.Pure }\n",
+			"ck(" + x + ", q) && p(" + y + ")", "(!(" + x + ".Type.Is(`int32`)) || " + x + ".Pure) && (" + y + ".Type.Is(`int64`))"},
+		{"function parameter handed on to another higher-order helper", i64 + i32 + "\tck := func(p func(dsl.Var) bool, v dsl.Var) bool { return p(v) }\n\tck2 := func(q func(dsl.Var) bool, v dsl.Var) bool { return ck(q, v) }\n",
+			"ck2(p, " + x + ") || q(" + y + ")", "(((" + x + ".Type.Is(`int64`)))) || (" + y + ".Type.Is(`int32`))"},
+		{"function parameter of two arguments", "\tis := func(v dsl.Var, s string) bool { return v.Type.Is(s) }\n\tck := func(is func(dsl.Var, string) bool, v dsl.Var) bool { return is(v, `int64`) }\n",
+			"ck(is, " + x + ")", "((" + x + ".Type.Is(`int64`)))"},
+		{"parameter named like a helper, the same helper is the argument", i64 + "\tck := func(p func(dsl.Var) bool, v dsl.Var) bool { return p(v) }\n", "ck(p, " + x + ")", "((" + x + ".Type.Is(`int64`)))"},
+	} {
+		add("higher-order helper: "+hf.name, "", hf.defs+twinRule(hf.where), twinRule(hf.inl))
+	}
+	// a name means what is in scope where it is written: a package-level function (a builtin) called by a helper is not the
+	// helper that is given the same name later on. A filter cannot call such a function: Go's reading is not a loadable rule.
+	addRej := func(name, pkg, helper, inlined string) {
+		out = append(out, fixedTwin{name: name, pkg: pkg, helper: helper, inlined: inlined, rejected: true})
+	}
+	pfDecl := "func pf(s string) bool { return s == `` }"
+	addRej("helper calls a package-level function; a later helper carries that name", pfDecl,
+		"\th := func(v dsl.Var) bool { return pf(`a`) && v.Pure }\n\tpf := func(s string) bool { return m[`x`].Text.Matches(s) }\n"+twinRule("h("+x+") && pf(`a8`)"),
+		twinRule("(pf(`a`) && "+x+".Pure) && ("+x+".Text.Matches(`a8`))"))
+	addRej("helper calls a package-level function; a later helper carries that name and another parameter list", pfDecl,
+		"\th := func(v dsl.Var) bool { return v.Pure || pf(`a`) }\n\tpf := func(s string) bool { return s == `a` }\n"+twinRule("h("+x+") || pf(`a8`)"),
+		twinRule("("+x+".Pure || pf(`a`)) || (`a8` == `a`)"))
+	addRej("helper calls the package-level function it is named after", pfDecl,
+		"\tpf := func(s string) bool { return pf(s) }\n"+twinRule("pf(`a`) && "+x+".Pure"), twinRule("(pf(`a`)) && "+x+".Pure"))
+	addRej("helper named after a builtin it calls", "",
+		"\tlen := func(v dsl.Var) bool { return len(`a`) == 1 && v.Pure }\n"+twinRule("len("+x+")"), twinRule("(len(`a`) == 1 && "+x+".Pure)"))
+	addRej("two helpers named after package-level functions that call each other", pfDecl+"\nfunc pg(s string) bool { return s != `` }",
+		"\tpf := func(s string) bool { return pg(s) }\n\tpg := func(s string) bool { return pf(s) }\n"+twinRule("pg(`a`) && "+x+".Pure"), twinRule("((pg(`a`))) && "+x+".Pure"))
+	// several groups of one file spell their filters alike and mean something else: equal-named constants of the groups with
+	// other values (used directly in Where, outside helpers), equal-named helpers with other bodies
+	addN := func(name, pkg string, groups ...[2]string) {
+		out = append(out, fixedTwin{name: name, pkg: pkg, helper: groups[0][0], inlined: groups[0][1], more: groups[1:]})
+	}
+	for _, gc := range []struct{ name, decl0, decl1, where, inl0, inl1 string }{
+		{"typeName", "const typeName = `int64`", "const typeName = `int32`", x + ".Type.Is(typeName)", x + ".Type.Is(`int64`)", x + ".Type.Is(`int32`)"},
+		{"size", "const size = 8", "const size = 4", x + ".Type.Size == size", x + ".Type.Size == 8", x + ".Type.Size == 4"},
+		{"size, constant first", "const size = 8", "const size = 4", "size == " + x + ".Type.Size", "8 == " + x + ".Type.Size", "4 == " + x + ".Type.Size"},
+		{"val", "const val = 420", "const val = 512", x + ".Value.Int() == val", x + ".Value.Int() == 420", x + ".Value.Int() == 512"},
+		{"pat", "const pat = `a8`", "const pat = `a4`", x + ".Text.Matches(pat)", x + ".Text.Matches(`a8`)", x + ".Text.Matches(`a4`)"},
+		{"txt", "const txt = `a8`", "const txt = `a4`", x + ".Text == txt", x + ".Text == `a8`", x + ".Text == `a4`"},
+		{"typeName under a negation and a conjunction", "const typeName = `int64`", "const typeName = `int32`", "!" + x + ".Type.Is(typeName) && " + y + ".Type.Size >= 4",
+			"!" + x + ".Type.Is(`int64`) && " + y + ".Type.Size >= 4", "!" + x + ".Type.Is(`int32`) && " + y + ".Type.Size >= 4"},
+		{"typed constant", "const typeName string = `int64`", "const typeName string = `int32`", x + ".Type.ConvertibleTo(typeName) && " + x + ".Type.Is(typeName)",
+			x + ".Type.ConvertibleTo(`int64`) && " + x + ".Type.Is(`int64`)", x + ".Type.ConvertibleTo(`int32`) && " + x + ".Type.Is(`int32`)"},
+		{"constant expression", "const half = 4", "const half = 2", x + ".Type.Size == half*2", x + ".Type.Size == 8", x + ".Type.Size == 4"},
+	} {
+		addN("equal-named group constants with other values: "+gc.name, "",
+			[2]string{"\t" + gc.decl0 + "\n" + twinRule(gc.where), twinRule(gc.inl0)}, [2]string{"\t" + gc.decl1 + "\n" + twinRule(gc.where), twinRule(gc.inl1)})
+	}
+	addN("three groups, the third repeats the value of the first", "",
+		[2]string{"\tconst typeName = `int64`\n" + twinRule(x+".Type.Is(typeName)"), twinRule(x + ".Type.Is(`int64`)")},
+		[2]string{"\tconst typeName = `int32`\n" + twinRule(x+".Type.Is(typeName)"), twinRule(x + ".Type.Is(`int32`)")},
+		[2]string{"\tconst typeName = `int64`\n" + twinRule(x+".Type.Is(typeName)"), twinRule(x + ".Type.Is(`int64`)")})
+	addN("a package-level constant in one group, an equal-named constant of the group in the next", "const typeName = `int32`",
+		[2]string{twinRule(x + ".Type.Is(typeName)"), twinRule(x + ".Type.Is(`int32`)")},
+		[2]string{"\tconst typeName = `int64`\n" + twinRule(x+".Type.Is(typeName)"), twinRule(x + ".Type.Is(`int64`)")})
+	addN("equal-named helpers with other bodies, called alike", "",
+		[2]string{"\tf := func(v dsl.Var) bool { return v.Type.Is(`int64`) }\n" + twinRule("f("+x+")"), twinRule("(" + x + ".Type.Is(`int64`))")},
+		[2]string{"\tf := func(v dsl.Var) bool { return v.Type.Is(`int32`) }\n" + twinRule("f("+x+")"), twinRule("(" + x + ".Type.Is(`int32`))")})
+	addN("equal-named helpers over equal-named constants", "",
+		[2]string{"\tf := func(v dsl.Var, s string) bool { return v.Type.Is(s) }\n\tconst typeName = `int64`\n" + twinRule("f("+x+", typeName)"), twinRule("(" + x + ".Type.Is(`int64`))")},
+		[2]string{"\tf := func(v dsl.Var, s string) bool { return v.Type.Is(s) }\n\tconst typeName = `int32`\n" + twinRule("f("+x+", typeName)"), twinRule("(" + x + ".Type.Is(`int32`))")})
+	addN("two rules spelled alike in each of two groups", "",
+		[2]string{"\tconst size = 8\n" + twinRule(x+".Type.Size == size") + twinRule(y+".Type.Size == size"), twinRule(x+".Type.Size == 8") + twinRule(y+".Type.Size == 8")},
+		[2]string{"\tconst size = 2\n" + twinRule(x+".Type.Size == size") + twinRule(y+".Type.Size == size"), twinRule(x+".Type.Size == 2") + twinRule(y+".Type.Size == 2")})
 	return out
 }()
 
@@ -100,5 +185,13 @@ func (t fixedTwin) render(inlined bool) string {
 	if inlined {
 		body = t.inlined
 	}
-	return "package gorules\n\nimport \"github.com/quasilyte/go-ruleguard/dsl\"\n\n" + t.pkg + "\n\nfunc g0(m dsl.Matcher) {\n" + body + "}\n"
+	src := "package gorules\n\nimport \"github.com/quasilyte/go-ruleguard/dsl\"\n\n" + t.pkg + "\n\nfunc g0(m dsl.Matcher) {\n" + body + "}\n"
+	for i, g := range t.more {
+		body = g[0]
+		if inlined {
+			body = g[1]
+		}
+		src += fmt.Sprintf("\nfunc g%d(m dsl.Matcher) {\n%s}\n", i+1, strings.ReplaceAll(body, "`hit $x`", fmt.Sprintf("`g%d hit $x`", i+1)))
+	}
+	return src
 }
